@@ -197,8 +197,12 @@ class Repo:
         if self.prepass.get('named_tuples'):
             # constructor calls that only became plain after unrolling / idiom rewriting
             _prepass.erase_named_tuples([m.tree for m in mods])
+            from .normalize import _scalarise_tuples, _SplitTupleAssign
             for m in mods:
                 _idioms.rewrite_tree(m.tree)
+                for n in ast.walk(m.tree):
+                    if isinstance(n, ast.FunctionDef) and _scalarise_tuples(n):
+                        _SplitTupleAssign().visit(n)
         for m in mods:
             self.modules[m.name] = m
             self._index_module(m)
